@@ -12,11 +12,13 @@ def machine_key(inp, obs, exp):
     kinds = set(t[0] for t in toks)
     if obs.startswith("panic"):
         return "machine:panic"
+    if "W" in kinds and "C" in kinds:
+        return "machine:unwind-with-captured-slot"
     if "T" in kinds and "C" in kinds:
         return "machine:tailcall-with-captured-slot"
     if kinds & {"G", "g"}:
         return "machine:growth"
-    return "machine:" + "".join(sorted(kinds & set("CXKRN")))
+    return "machine:" + "".join(sorted(kinds & set("CXKRNW")))
 
 
 def machine_stream(ctx, name="c13.machine", specname="c13.spec", quick=6000, thorough=400000, indep=None, harness_args=()):
@@ -24,6 +26,10 @@ def machine_stream(ctx, name="c13.machine", specname="c13.spec", quick=6000, tho
     extracted store-semantics spec on the traces that satisfy the discipline D"""
     h = vlib.build_harness("c13")
     m = vlib.build_model_exact("C13")
+    rc, hv = vlib.sh([h, "-extra", "haveunwind"], timeout=120, env=vlib.elk_env())
+    if rc != 0 or hv.strip() != "true":
+        ctx.broke(name + ": the error-unwinding hook /repo/vm/verif_c13b.go (VerifC13.Unwind) is not in the checkout under test; "
+                  "traces contain no W (rethrow) operations", hv[-500:])
     corpus = os.path.join(vlib.ROOT, "corpus", "C13.machine.txt")
     r = vlib.value_stream(
         ctx, name, h, m, ctx.n(quick, thorough), machine_key,
@@ -31,11 +37,11 @@ def machine_stream(ctx, name="c13.machine", specname="c13.spec", quick=6000, tho
         "slots so that growValueStack fires inside calls; 3/4 generated in disciplined style, 1/4 free incl. dangling captures, "
         "dead-slot accesses, ill-formed tail calls) executed on a real vm.Thread through push/pop/getLocalValue/setLocalValue/"
         "captureUpvalue/Upvalue.Get,Set/opCloseUpvalues/callBytecodeFunction/restoreLastFrame/callBytecodeFunctionTCO/"
-        "growValueStack; the reads AND the final view (capacity, sp, fp, saved frame pointers, live slots, open list as slot "
+        "growValueStack/rethrow (an error caught 1-3 frames up: W tokens, hook vm/verif_c13b.go); the reads AND the final view (capacity, sp, fp, saved frame pointers, live slots, open list as slot "
         "offsets, every handle open@slot / closed=value) must equal the extracted Coq machine `run`; non-trivial = trace with a "
         "capture and a later close/return/growth/tail call",
         corpus=corpus, harness_args=harness_args,
-        nontrivial=lambda inp, obs: " C" in inp and any(x in inp for x in (" X", " R", " G", " g", " T")),
+        nontrivial=lambda inp, obs: " C" in inp and any(x in inp for x in (" X", " R", " G", " g", " T", " W")),
         classify=lambda inp, obs: "len%02d-%02d" % (len(inp.split()) // 20 * 20, len(inp.split()) // 20 * 20 + 19))
     if not r:
         return
